@@ -548,9 +548,47 @@ async fn part_c(ctx: &Ctx, dir: &std::path::Path, rf: u8, depth: usize, samples:
     (sequences, restarts, transitions)
 }
 
+/// Part B re-opens a database once per generation of 16 cases and every open leaves file descriptors behind (the
+/// reader pool and its caches keep each other alive), so each replication factor's share runs in its own process:
+/// `clusterx C08 <tier> --part-b <rf>` prints one JSON line with its counts and the violations it found.
+fn part_b_child(args: &Args, rf: u8) -> ! {
+    let thorough = args.tier.is_thorough();
+    let mut ctx = Ctx::new("C08", args.tier, "model_checking");
+    ctx.collect_only = true; // the parent reports
+    let samples = Samples::new(4);
+    let rt = rt(4);
+    let bdir = scratch("c08b");
+    let (restarts, paths_used, outcomes) = rt.block_on(part_b(&ctx, &bdir, rf, thorough, &samples));
+    let _ = std::fs::remove_dir_all(&bdir);
+    let line = json!({"t": "part-b", "rf": rf, "restarts": restarts, "paths": paths_used, "outcomes": outcomes, "violations": ctx.collected_violations(), "samples": samples.take()});
+    println!("PARTB {line}");
+    vcommon::workers::remove_own_scratch();
+    std::process::exit(0)
+}
+
+fn part_b_in_child(ctx: &Ctx, tier: vcommon::Tier, rf: u8, samples: &Samples) -> (u64, u64, BTreeMap<String, u64>) {
+    let exe = std::env::current_exe().unwrap_or_else(|e| vcommon::machinery_fail(&format!("current_exe: {e}")));
+    let out = std::process::Command::new(exe).args(["C08", tier.as_str(), "--part-b", &rf.to_string()]).stderr(std::process::Stdio::inherit()).output().unwrap_or_else(|e| vcommon::machinery_fail(&format!("cannot start the part B process: {e}")));
+    let text = String::from_utf8_lossy(&out.stdout);
+    let Some(line) = text.lines().find_map(|l| l.strip_prefix("PARTB ")) else { vcommon::machinery_fail(&format!("the part B process for rf {rf} ended without a result ({:?})", out.status)) };
+    let v: Value = serde_json::from_str(line).unwrap_or_else(|e| vcommon::machinery_fail(&format!("part B result does not parse: {e}")));
+    for viol in v["violations"].as_array().into_iter().flatten() {
+        ctx.violation(viol[0].as_str().unwrap_or("C08/part-b"), viol[1].as_str().unwrap_or(""), viol[2].clone());
+    }
+    for smp in v["samples"].as_array().into_iter().flatten() {
+        samples.push(smp.clone());
+    }
+    let outcomes: BTreeMap<String, u64> = v["outcomes"].as_object().map(|o| o.iter().map(|(k, n)| (k.clone(), n.as_u64().unwrap_or(0))).collect()).unwrap_or_default();
+    (v["restarts"].as_u64().unwrap_or(0), v["paths"].as_u64().unwrap_or(0), outcomes)
+}
+
 pub fn run(args: Args) {
     let tier = args.tier;
     let thorough = tier.is_thorough();
+    if let Some(i) = args.extra.iter().position(|a| a == "--part-b") {
+        let rf: u8 = args.extra.get(i + 1).and_then(|s| s.parse().ok()).unwrap_or_else(|| vcommon::machinery_fail("--part-b needs a replication factor"));
+        part_b_child(&args, rf);
+    }
     let mut ctx = Ctx::new("C08", tier, "model_checking");
     let samples = Samples::new(12);
     if let Some(path) = &args.replay {
@@ -584,9 +622,7 @@ pub fn run(args: Args) {
             a2_runs += part_a2(&ctx, &db, rf, &mut next_partition, &samples).await;
         }
         for &rf in &rfs {
-            let bdir = scratch("c08b");
-            let (restarts, paths_used, outcomes) = part_b(&ctx, &bdir, rf, thorough, &samples).await;
-            let _ = std::fs::remove_dir_all(&bdir);
+            let (restarts, paths_used, outcomes) = part_b_in_child(&ctx, tier, rf, &samples);
             restarts_total += restarts;
             b_rows.push(json!({"rf": rf, "update_paths": paths_used, "restarts": restarts, "distinct_disk_states_after_crash": outcomes.len(), "disk_states": outcomes}));
         }
